@@ -13,6 +13,7 @@ from sigma.exceptions import (
     SigmaTransformationError,
 )
 from sigma.types import (
+    SigmaExpansion,
     SigmaString,
     SigmaType,
     SigmaFieldReference,
@@ -309,6 +310,13 @@ class FieldMappingTransformationBase(DetectionItemTransformation):
                 for value in detection_item.value:
                     if isinstance(value, SigmaString):
                         value = self._add_wildcards_to_value(value)
+                    elif isinstance(value, SigmaExpansion):  # each alternative of an expansion
+                        value = SigmaExpansion(
+                            [
+                                self._add_wildcards_to_value(v) if isinstance(v, SigmaString) else v
+                                for v in value.values
+                            ]
+                        )
                     new_values.append(value)
                 detection_item.value = new_values
 
